@@ -24,6 +24,18 @@ CLS_T = [DEFAULT_MARKER, '', 'a<', 'plain']
 KIND_N = {'cls': len(CLS), 'len': 4, 'lenN': 5, 'int': 4, 'cls_nd': len(CLS)}
 
 
+class StrObj:
+    """an object whose string form contains markup"""
+
+    def __str__(self):
+        return 'o<b>&'
+
+
+# further value classes of the C01 quantifier: bytes, sequences, dicts, floats, arbitrary objects, empty containers
+CLS_X = [b'by<e', [1, 'a<'], (3,), {'k': 1}, 1.5, StrObj(), [], {}, b'']
+KIND_N['cls_x'] = len(CLS_X)
+
+
 def rec(tag, value=None):
     LOG.append(tag)
     return value
@@ -409,6 +421,8 @@ def bind(ints, bools):
             b[name] = ints[slot]
         elif kind == 'cls':
             b[name] = pick(CLS, ints[slot])
+        elif kind == 'cls_x':
+            b[name] = pick(CLS_X, ints[slot])
         elif kind == 'cls_s':
             b[name] = pick(CLS_S, ints[slot])
         elif kind == 'cls_t':
